@@ -702,7 +702,7 @@ func describeAofWrite(e *sos.JEntry) string {
 		if al.Decode() != nil {
 			continue
 		}
-		fmt.Fprintf(&b, " {cmd=%d db=%d key=%d lid=%d flag=0x%x aofflag=0x%x ex=%d/0x%x cnt=%d rc=%d id=%d.%d t=%d}", al.CommandType, al.DbId, al.LockKey[1], al.LockId[0], al.Flag, al.AofFlag,
+		fmt.Fprintf(&b, " {cmd=%d db=%d key=%d lid=%d flag=0x%x aofflag=0x%x ex=%d/0x%x cnt=%d rc=%d id=%d.%d t=%d}", al.CommandType, al.DbId, al.LockKey[1], al.LockId[1], al.Flag, al.AofFlag,
 			al.ExpriedTime, al.ExpriedFlag, al.Count, al.Rcount, al.AofIndex, al.AofOffset, al.CommandTime)
 	}
 	return b.String()
